@@ -423,8 +423,13 @@ pub fn gen_write(rng: &mut Rng, count: usize, thorough: bool, out: &mut Vec<Stri
         let mut ops: Vec<String> = vec![];
         let mut used = vec![];
         let n = rng.below(5);
+        // serialisation in the middle of the program (a size or bytes computed early must not survive a later add)
+        let early = rng.chance(1, 3);
         for _ in 0..n {
             ops.push(add_op(rng, &mut used, false));
+            if early && rng.chance(1, 2) {
+                ops.push(rng.pick(&["q/-/-", "w/2000/aa", "w/21/ff", "t"]).to_string());
+            }
         }
         let cred = rand_creds(rng);
         match i % 5 {
